@@ -661,7 +661,17 @@ pub fn post_txn(w: &mut World, n: usize, _kind: &TxnKind, _uid: Option<usize>) -
     // deep observers: paths lead to the targets; all changed descendants are reported
     for d in deep.iter() {
         if ops::resolve_any(&txn, &d.target).is_none() {
-            continue; // deleted in this very transaction
+            // A type that is gone at the end of the transaction has nothing to report: its removal
+            // is an event of its parent. An event for it cannot have a correct path either - the
+            // path is computed in the list as it is after the transaction and leads to whatever
+            // took its place.
+            return Err(viol(
+                "events.deleted-target",
+                format!(
+                    "node {}: deep observer of {:?} got an event for {:?} (path {:?}), which has been deleted in this very transaction",
+                    n, d.root, d.target, d.path
+                ),
+            ));
         }
         w.stats.closed_checks += 1;
         match resolve_path(&txn, &d.root, &d.path, ok) {
